@@ -64,6 +64,7 @@ type held struct {
 }
 
 type histState struct {
+	ranges    []memRange
 	dirtySeen map[reflect.Type]bool
 	c         *common.Ctx
 	pooled    map[reflect.Type]bool
@@ -644,6 +645,57 @@ func (h *histState) audit(targets []*cleanTarget, bound map[reflect.Type]int) {
 				break
 			}
 		}
+		for _, g := range keep {
+			h.noteStorage(g, tg)
+		}
 		runtime.KeepAlive(keep)
 	}
+	h.checkStorageOverlap()
+}
+
+// storage ranges of everything the pools hold at the end of a history: the objects themselves and the backing arrays
+// their slice fields retain.  Two pooled things must never share memory: the next two holders would write into each other.
+type memRange struct {
+	lo, hi uintptr
+	what   string
+	owner  uintptr
+}
+
+func (h *histState) noteStorage(g any, tg *cleanTarget) {
+	rv := reflect.ValueOf(g)
+	if rv.Kind() != reflect.Ptr || rv.IsNil() || rv.Elem().Kind() != reflect.Struct {
+		return
+	}
+	base := rv.Pointer()
+	h.ranges = append(h.ranges, memRange{base, base + rv.Elem().Type().Size(), "a pooled " + tg.Pool.Elem, base})
+	ev := rv.Elem()
+	for i := 0; i < ev.NumField(); i++ {
+		f := ev.Field(i)
+		if f.Kind() == reflect.Slice && f.Cap() > 0 && f.Type().Elem().Size() > 0 {
+			lo := f.Pointer()
+			h.ranges = append(h.ranges, memRange{lo, lo + uintptr(f.Cap())*f.Type().Elem().Size(),
+				"the backing array retained by a pooled " + tg.Pool.Elem + "." + ev.Type().Field(i).Name, base})
+		}
+	}
+}
+
+func (h *histState) checkStorageOverlap() {
+	rs := h.ranges
+	h.ranges = nil
+	sort.Slice(rs, func(i, j int) bool { return rs[i].lo < rs[j].lo })
+	for i := 1; i < len(rs); i++ {
+		a, b := rs[i-1], rs[i]
+		if b.lo < a.hi && a.owner != b.owner && a.lo != 0 {
+			h.failed = true
+			h.c.Fail("pooled-storage-overlap", fmt.Sprintf("at the end of the history %s and %s occupy the same memory (%d bytes shared): two later holders would write into each other", a.what, b.what, minPtr(a.hi, b.hi)-b.lo))
+			return
+		}
+	}
+}
+
+func minPtr(a, b uintptr) uintptr {
+	if a < b {
+		return a
+	}
+	return b
 }
